@@ -2,6 +2,7 @@
 from .. import scheme as K
 from .. import pyspec as S
 ID = "C01"
+IMPL_SHARDS = 16   # the six signmany volumes run side by side
 RULE = ("keys from seeds (seeded and unseeded generation through the RNG tap, two keys per set in one process); messages of length "
         "0, 1 and the lengths straddling the 136-byte block after the key-hash prefix, long messages; deterministic, hedged / "
         "randomized (real RNG on the implementation, scripted tape for the model comparison), contexts 0..255 bytes, SHA-256 and "
@@ -21,8 +22,9 @@ def requests(tier, rng):
             L.append(K.keygen(s, bytes(rng.randrange(256) for _ in range(32))))
         L.append("@impl sign::%s::keypair none real" % s)
         # volume on the implementation: many messages under one key (late-rejection paths of the loop are taken by about 1 message
-        # in 100; a call that does not return shows as a timeout): every signature must be produced and verify
-        n = 600 if tier == "quick" else 20000
+        # in 100, a streak of 32 rejections by about 2 in 10^4; a call that does not return shows as a timeout): every
+        # signature must be produced and verify (4000 sign+verify pairs take 2-4 s per set in either build)
+        n = 12000 if tier == "quick" else 60000
         L.append("@impl scan::signmany %s %s %d" % (s, K.hx(bytes(rng.randrange(256) for _ in range(32))), n))
     return L
 
